@@ -1417,12 +1417,22 @@ func (k *c28) ruleConnect() {
 			c.Check(guardedBy(f, w, pass) && sameConn, "C28.connect-protocol", key+" · writeLoop after node info", w.Pos(),
 				"writeLoop(conn) only after writeNodeInfo(conn) succeeded", "writeLoop not dominated by a successful writeNodeInfo on the same connection")
 
-			isDial := func(in ssa.Instruction) bool { return k.mayDo(in, func(x ssa.Instruction) bool { return isCallTo(x, k.dial) }, 0) }
+			isDial := func(in ssa.Instruction) bool {
+				return k.mayDo(in, func(x ssa.Instruction) bool { return isCallTo(x, k.dial) }, 0)
+			}
 			isBump := func(in ssa.Instruction) bool { return isCallTo(in, k.bumpEpoch) }
-			disables := func(in ssa.Instruction) bool { return k.mustDo(in, func(x ssa.Instruction) bool { return isEnable(x, false) }, 0) }
-			enablesAgain := func(in ssa.Instruction) bool { return k.mayDo(in, func(x ssa.Instruction) bool { return isEnable(x, true) }, 0) }
-			resets := func(in ssa.Instruction) bool { return k.mustDo(in, func(x ssa.Instruction) bool { return isCallTo(x, k.reset) }, 0) }
-			drains := func(in ssa.Instruction) bool { return k.mustDo(in, func(x ssa.Instruction) bool { return isCallTo(x, k.drainQueueLocked) }, 0) }
+			disables := func(in ssa.Instruction) bool {
+				return k.mustDo(in, func(x ssa.Instruction) bool { return isEnable(x, false) }, 0)
+			}
+			enablesAgain := func(in ssa.Instruction) bool {
+				return k.mayDo(in, func(x ssa.Instruction) bool { return isEnable(x, true) }, 0)
+			}
+			resets := func(in ssa.Instruction) bool {
+				return k.mustDo(in, func(x ssa.Instruction) bool { return isCallTo(x, k.reset) }, 0)
+			}
+			drains := func(in ssa.Instruction) bool {
+				return k.mustDo(in, func(x ssa.Instruction) bool { return isCallTo(x, k.drainQueueLocked) }, 0)
+			}
 			_, f1 := findPath(pathQuery{start: w, target: isBump, blocker: disables})
 			c.Check(!f1, "C28.connect-protocol", key+" · disable before bump", w.Pos(), "Store(false) precedes bumpEpoch on every path", "bumpEpoch reachable after writeLoop without enabledFlag.Store(false)")
 			_, f2 := findPath(pathQuery{start: w, target: isDial, blocker: isBump})
